@@ -10,6 +10,7 @@ import (
 	"encoding/json"
 	"fmt"
 	"math"
+	"math/big"
 	"os"
 	"sort"
 	"strconv"
@@ -302,6 +303,9 @@ func runGofmt(k *kase) (out string) {
 		case 'f':
 			v, _ := strconv.ParseUint(g[1:], 10, 64)
 			a = append(a, math.Float64frombits(v))
+		case 'B':
+			b, _ := new(big.Int).SetString(g[1:], 10)
+			a = append(a, b)
 		}
 	}
 	return "ok " + hx.HexS(fmt.Sprintf(k.format, a...))
@@ -362,14 +366,8 @@ func classify(k *kase, ft cfeat, wantErr bool) string {
 		return ft.errWhy + "-accepted" // the reference demands an error
 	case ft.beyondLimit:
 		return "width-or-precision-beyond-1e6"
-	case ft.starPrecNeg:
-		return "star-precision-negative"
-	case ft.beyondInt64:
-		return "int-conv-arg-beyond-int64"
-	case ft.nonfiniteFloat:
-		return "float-conv-nonfinite"
-	case ft.gNoPrec:
-		return "g-no-precision"
+	// input classes of the defects that are still open come first: a case that also has one of
+	// the repaired features below must not be blamed on the repaired defect
 	case ft.unsignedSign:
 		return "unsigned-conv-plus-or-space-flag"
 	case ft.sharpHexZeroVal:
@@ -382,6 +380,15 @@ func classify(k *kase, ft cfeat, wantErr bool) string {
 		return "s-of-integral-number-beyond-int64"
 	case ft.multibyte:
 		return "s-width-or-precision-multibyte-byte-mode"
+	// repaired (F-C09-4, -7, -6, -1): no longer in known findings, a failure here is a violation
+	case ft.starPrecNeg:
+		return "star-precision-negative"
+	case ft.beyondInt64:
+		return "int-conv-arg-beyond-int64"
+	case ft.nonfiniteFloat:
+		return "float-conv-nonfinite"
+	case ft.gNoPrec:
+		return "g-no-precision"
 	case ft.floatConv:
 		return "float-conv" + mode
 	}
